@@ -71,8 +71,17 @@ def run(chk):
                 rows_rule(chk, r2, c2)
     # the energy expression itself: 0.5 * v * |v| of the integrated velocity
     fe = P.fn(SE)
-    ea = [n for n in ast.walk(fe.node) if isinstance(n, ast.Assign) and isinstance(n.targets[0], ast.Name) and
-          any(isinstance(x, ast.Call) and ast.unparse(x.func).split(".")[-1] in ("abs", "absolute") for x in ast.walk(n.value))]
+    def _has_abs(e_):
+        return any(isinstance(x, ast.Call) and ast.unparse(x.func).split(".")[-1] in ("abs", "absolute") for x in ast.walk(e_))
+
+    def _energy_expr(e_):
+        """the product itself when it is handed straight to another call (trim_to_length(0.5 * v * abs(v), ...))"""
+        if isinstance(e_, ast.Call) and ast.unparse(e_.func).split(".")[-1] not in ("abs", "absolute"):
+            inner = [a for a in list(e_.args) + [k.value for k in e_.keywords] if _has_abs(a)]
+            if len(inner) == 1 and isinstance(inner[0], ast.BinOp):
+                return inner[0]
+        return e_
+    ea = [n for n in ast.walk(fe.node) if isinstance(n, ast.Assign) and isinstance(n.targets[0], ast.Name) and _has_abs(n.value)]
     va = [n for n in ast.walk(fe.node) if isinstance(n, ast.Assign) and isinstance(n.value, ast.Call) and
           ast.unparse(n.value.func).split(".")[-1] == "cumulative_trapezoid" and isinstance(n.targets[0], ast.Name)]
     inplace_ = len(ea) == 1 and any(isinstance(x, ast.AugAssign) and isinstance(x.target, ast.Name) and x.target.id == ea[0].targets[0].id
@@ -85,7 +94,7 @@ def run(chk):
                derived="formed in place over several statements", loc=fe.loc(ea[0]), inconclusive=True)
     elif len(ea) == 1 and len(va) == 1:
         v = va[0].targets[0].id
-        p = Normaliser().poly(ea[0].value)
+        p = Normaliser().poly(_energy_expr(ea[0].value))
         want = Poly.const(Fraction(1, 2)) * Poly.atom(v) * Poly.atom("abs(%s)" % v)
         chk.ob("R-SE-TYPE", "eqsig/surface.py:calc_surface_energy{energy}", "energy = 0.5 * v * |v| with v the integrated velocity", p == want,
                derived=p.canon(), loc=fe.loc(ea[0]), stmt=norm_stmt(ea[0]))
@@ -138,7 +147,8 @@ def run(chk):
     defs = {n.targets[0].id: n for n in ast.walk(fj.node) if isinstance(n, ast.Assign) and isinstance(n.targets[0], ast.Name)}
     pad = [n for n in ast.walk(fj.node) if isinstance(n, ast.Call) and ast.unparse(n.func).split(".")[-1] == "pad"]
     okp = len(pad) == 1 and nm.arg(pad[0].args[0]) == "values" and ast.unparse(pad[0].args[1]).replace(" ", "") in ("(0,np.max(shifts))", "(0,max(shifts))") \
-        and any(k.arg == "constant_values" and ast.unparse(k.value) == "0" for k in pad[0].keywords)
+        and (any(k.arg == "constant_values" and ast.unparse(k.value) == "0" for k in pad[0].keywords) or
+             (len(pad[0].args) == 2 and not [k for k in pad[0].keywords if k.arg != "mode" or ast.unparse(k.value) not in ("'constant'",)]))  # np.pad's defaults
     chk.ob("R-JOIN", cj + "{a0}", "a0 = values zero-padded at the end by max(shifts)", okp, derived=norm_stmt(pad[0]) if pad else "no np.pad",
            loc=fj.loc(pad[0]) if pad else fj.loc())
     put = [n for n in ast.walk(fj.node) if isinstance(n, ast.Call) and ast.unparse(n.func).split(".")[-1] == "put_array_in_2d_array"]
@@ -403,8 +413,16 @@ def wave_summary(chk, fi, c):
     pd_, ip_ = made_by("pad"), made_by("interp")
     if len(pd_) == 1:
         roles[pd_[0].targets[0].id] = "up_wave"
+    inline_pos = None
     if len(ip_) == 1:
         roles[ip_[0].targets[0].id] = "down_waves"
+        if ip_[0].value.args and isinstance(ip_[0].value.args[0], ast.BinOp) and isinstance(ip_[0].value.args[0].op, ast.Sub):
+            inline_pos = True
+            r_ = ip_[0].value.args[0].right
+            while isinstance(r_, ast.Subscript):
+                r_ = r_.value
+            if isinstance(r_, ast.Name):
+                roles[r_.id] = "shifts"
         if ip_[0].value.args and isinstance(ip_[0].value.args[0], ast.Name):
             roles[ip_[0].value.args[0].id] = "dshifted"
             dsd = [n for n in a0 if n.targets[0].id == ip_[0].value.args[0].id]
@@ -456,6 +474,16 @@ def wave_summary(chk, fi, c):
     sh = one("shifts")
     if sh is not None:
         p = nm.poly(sh.value)
+        # the array form of the travel times under another local name (tts = np.array(travel_times) / np.array([travel_times])) is the travel times
+        arr_alias = set()
+        for k_, v_ in byname.items():
+            def _is_arr(e_):
+                return isinstance(e_, ast.Call) and ast.unparse(e_.func).split(".")[-1] in ("array", "asarray", "atleast_1d") and len(e_.args) == 1 and \
+                    ast.unparse(e_.args[0]).replace(" ", "") in ("travel_times", "[travel_times]")
+            if k_ != "travel_times" and v_ and all(_is_arr(x.value) for x in v_):
+                arr_alias.add(k_)
+        if arr_alias:
+            p = p.subst_atoms(lambda a_: "travel_times" if a_ in arr_alias else a_)
         out["shifts"] = p.canon()
         chk.ob("R-SE-SIGN", c + "{shifts}", "shifts = 2 * travel_times / dt", p == Poly.const(2) * Poly.atom("travel_times") * Poly.atom("asig.dt").inverse(),
                derived=p.canon(), loc=fi.loc(sh), stmt=norm_stmt(sh))
@@ -472,7 +500,8 @@ def wave_summary(chk, fi, c):
         md_ = [k.value for k in call.keywords if k.arg == "mode"] + list(call.args[2:3])
         okp = ast.unparse(call.func).split(".")[-1] == "pad" and nm.poly(call.args[0]).canon() == "1*asig.values" and \
             ast.unparse(call.args[1]).replace(" ", "") == "(0,max_shift)" and \
-            ((cv_ and _zero(cv_[0])) or (not cv_ and md_ and isinstance(md_[0], ast.Constant) and md_[0].value == "constant"))      # zeros are mode='constant''s default fill
+            ((cv_ and _zero(cv_[0])) or (not cv_ and md_ and isinstance(md_[0], ast.Constant) and md_[0].value == "constant") or
+             (not cv_ and not md_ and not [k for k in call.keywords if k.arg is None]))      # zeros are mode='constant''s default fill, 'constant' np.pad's default mode
         chk.ob("R-SE-SIGN", c + "{up wave}", "up = record zero-padded at the end by max_shift", okp, derived=norm_stmt(uw), loc=fi.loc(uw))
     ds = one("dshifted")
     if ds is not None:
@@ -498,7 +527,14 @@ def wave_summary(chk, fi, c):
                     e_.slice.upper is not None and nm.poly(e_.slice.upper).canon() == "1*asig.npts" and nm.poly(e_.value).canon().startswith("1*np.arange("):
                 return True
             return False
-        oki = ast.unparse(call.func).split(".")[-1] == "interp" and len(call.args) >= 3 and nm.arg(call.args[0]) == "dshifted" and \
+        pos_ok = nm.arg(call.args[0]) == "dshifted" if call.args else False
+        if inline_pos and call.args and isinstance(call.args[0], ast.BinOp):
+            p = nm.poly(call.args[0])
+            out["dshifted"] = p.canon()
+            pos_ok = p == Poly.atom("np.arange(1*asig.npts + 1*max_shift)") - Poly.atom("shifts")
+            chk.ob("R-SE-SIGN", c + "{delay positions}", "positions = arange(npts + max_shift) - shifts", pos_ok, derived=p.canon(), loc=fi.loc(dw),
+                   stmt=norm_stmt(dw))
+        oki = ast.unparse(call.func).split(".")[-1] == "interp" and len(call.args) >= 3 and pos_ok and \
             _xp_ok(call.args[1]) and nm.poly(call.args[2]).canon() == "1*asig.values" and _zero2(kwn.get("left")) and _zero2(kwn.get("right"))
         chk.ob("R-SE-SIGN", c + "{delayed wave}", "down = np.interp(positions, arange(npts), record, left=0, right=0)", oki, derived=norm_stmt(dw),
                loc=fi.loc(dw))
@@ -510,6 +546,16 @@ def wave_summary(chk, fi, c):
                 if len(a) == 1:
                     p = nm.poly(a[0].value)
                     got = (p.t.get((("down_waves", Fraction(1)),)), p.t.get((("up_wave", Fraction(1)),)))
+                    tgt_ = a[0].targets[0].id if isinstance(a[0].targets[0], ast.Name) else None
+                    later = [x for x in assigns if tgt_ and x.lineno >= n.end_lineno and x not in n.body and x not in n.orelse and
+                             any(isinstance(y, ast.Name) and y.id == tgt_ for y in ast.walk(x.value))]
+                    if got[1] is None and len(later) >= 1 and isinstance(later[0].value, ast.BinOp):
+                        # the branch only picks the signed delayed wave; the sum with the upward wave is formed once after the branch
+                        nm2 = Normaliser()
+                        nm2.env.update(nm.env)
+                        nm2.env[tgt_] = p
+                        p = nm2.poly(later[0].value)
+                        got = (p.t.get((("down_waves", Fraction(1)),)), p.t.get((("up_wave", Fraction(1)),)))
                     out["branch:" + label] = p.canon()
                     chk.ob("R-SE-SIGN", c + "{%s}" % label, "%s: %+d*down %+d*up" % (label, want[0], want[1]), got == want and len(p.t) == 2,
                            derived=p.canon(), loc=fi.loc(a[0]), stmt=norm_stmt(a[0]))
